@@ -68,5 +68,23 @@ MUTANTS = {
    "        self.parent.globals.update(self.globals)\n        self.parent.nonlocals.update(self.nonlocals)",
    "        self.parent.globals.update(self.globals)\n        if self.parent.isolated or (self.parent.parent is not None and self.parent.parent.isolated):\n"
    "          self.parent.nonlocals.update(self.nonlocals)"),
+  # shapes added in round 3: else clauses of loops (a jump written there belongs to the ENCLOSING loop; the type a variable has on
+  # that path travels along the jump edge only) ...
+  ('m17_jump_in_for_else_bound_to_the_for_loop_itself', 'malt/pyct/cfg.py',
+   "orelse will affect the parent loop, not the current one.\n    self._exit_lexical_scope(node)\n\n"
+   "    for stmt in node.orelse:\n      self.visit(stmt)\n",
+   "orelse will affect the parent loop, not the current one.\n\n"
+   "    for stmt in node.orelse:\n      self.visit(stmt)\n    self._exit_lexical_scope(node)\n"),
+  ('m17b_jump_in_while_else_bound_to_the_while_loop_itself', 'malt/pyct/cfg.py',
+   "break in the loop's orelse will not affect the loop itself.\n    self._exit_lexical_scope(node)\n\n"
+   "    for stmt in node.orelse:\n      self.visit(stmt)\n",
+   "break in the loop's orelse will not affect the loop itself.\n\n"
+   "    for stmt in node.orelse:\n      self.visit(stmt)\n    self._exit_lexical_scope(node)\n"),
+  # ... and calls of a local function made from a function nested two or more levels below the scope that defines it (the
+  # definitions a function closes over must be passed down through every level)
+  ('m18_closed_over_fndefs_not_passed_below_the_first_level', 'malt/pyct/static_analysis/reaching_fndefs.py',
+   "      defined_in = self.current_analyzer.in_[cfg_node].value\n",
+   "      defined_in = (set(self.current_analyzer.in_[cfg_node].value)\n"
+   "                    - set(self.current_analyzer.external_defs))\n"),
  ],
 }
